@@ -48,6 +48,8 @@ def run(ctx: Ctx, rep: Report) -> None:
         C09.ixt_flow(ctx, rep, qual, tag)
         C09.pair(ctx, rep, qual, tag)
     C09.publish(ctx, rep)
+    from ..rules.undo import rule_undo
+    rule_undo(ctx, rep, ('bqskit/passes/mapping/',), 1)
     measure(ctx, rep)
     # single-qudit retargeting (ZXZXZ) spells the same rotation two ways
     from ..rules.branchsib import rule_altspell
